@@ -51,14 +51,15 @@ func init() {
 
 // H_dbg: scratch harness for engine debugging.
 func H_dbg(p []int) {
-	s := string(vBytes(1))
-	s1 := redact.Sprintf("pfx %v sfx", sfDoublePanic{s})
-	got := append([]byte(nil), s1...)
-	vObserve("first", got)
-	s2 := redact.Sprintf("zzzzzzzzzzzzzzzz %d", 1)
-	vObserve("second", []byte(s2))
-	vObserve("first-again", []byte(s1))
-	vAssert(bytesEq([]byte(s1), got), "C11/dbg-stable")
+	var b redact.StringBuilder
+	pre := make([]byte, p[0])
+	for j := range pre {
+		pre[j] = 'x'
+	}
+	b.Write(append(pre, vByte()))
+	vObserve("cap1", []byte(fmt.Sprint(b.Cap(), b.Len())))
+	b.Write(vBytes(2))
+	vObserve("out", []byte(b.RedactableString()))
 }
 
 func init() { Harnesses["H_dbg"] = H_dbg }
